@@ -133,12 +133,12 @@ MANIFEST_TEXT = {
     "C05": {
         "technique": "runtime monitoring: conservation monitor (in = out + held) over live allocator and datapath state read at quiescent points under the agent's own locks, after every way a session can end; allocator pools driven through several full wraps",
         "text": "Sessions are ended in every way the code has (deletion, association release, heartbeat expiry, peer restart, failed/rejected establishment, injected datapath failures, report-triggered removal) on both datapaths; after each ending the monitor compares occupancy of the UE pool, F-TEID generator, UP4 counter/meter/application/tunnel-peer id pools and the datapath tables with the set of live sessions, and drives each pool through more allocations than its size to show reclaimed ids are reusable. Two listed known findings (UP4) print KNOWN-FINDING.",
-        "note": "Reads of agent state are quiesced (all associations' handler locks held). Not reached: a real process kill (endings are simulated in-process).",
+        "note": "Prefixes include idle-then-end, Update PDR refresh / new F-TEID and Remove PDR on UP-chosen rules. Reads of agent state are quiesced (all associations' handler locks held). Not reached: a real process kill (endings are simulated in-process). Four listed known findings print KNOWN-FINDING.",
     },
     "C08": {
         "technique": "runtime monitoring: grammar-directed generation with a positional reference interpreter as oracle, on the parser called in-process and end to end on the entries received by the harness BESS server; PFD histories against a table model",
         "text": "24k/2M flow descriptions per run from the grammar and its malformed neighbourhood (each malformed class of the statement) through parsePDR on real Create PDR IEs for both directions, with and without UE address: panic, refusal and the resulting filter are judged against the reference interpretation; PFD Management histories (accepted/rejected, replacing/partial) interleaved with sessions naming known/unknown application ids, the programmed match fields compared verbatim with the provisioned flow description of the matching direction keyword.",
-        "note": "IPv6 tokens and descriptions with ports on both endpoints are outside the property and driven for crash-freedom only. The UE-side slot is compared only when written as `assigned`.",
+        "note": "PFD histories include empty requests and five kinds of unacceptable applications (rejected or dropped: the table stays). IPv6 tokens and descriptions with ports on both endpoints are outside the property and driven for crash-freedom only. The UE-side slot is compared only when written as `assigned`.",
     },
     "C09": {
         "technique": "runtime monitoring: arithmetic reference monitor on the QoS values received by the harness datapath servers (BESS Qos table entries, UP4 meter configs), boundary-value and random rates, model of session-level QER designation over histories",
@@ -153,7 +153,7 @@ MANIFEST_TEXT = {
     "C15": {
         "technique": "runtime monitoring with fault enumeration: the harness P4Runtime server fails the k-th write for every k of fixed multi-session scenarios (and random multi-failure subsets); ownership monitor over the switch entries and the agent's id pools after every step",
         "text": "Six scenarios of establishments, GTP-peer-moving modifications and deletions over sessions sharing tunnel peers and applications are first run fault-free to count their W writes, then re-run failing write k for every k (and random subsets of writes); after every step the monitor derives owners from the entries the switch holds (counter index, app-meter and session-meter cells, tunnel-peer id, application id carried by entries of two owners), compares them with the agent's pools read at quiescence (id in use by an entry and free in its pool; id in a foreign pool), and checks that a request with a failed write is never answered 'accepted'.",
-        "note": "Write failures are injected at the harness server (the whole Write RPC is refused), not inside the agent; pool contents are read in-package under the associations' handler locks.",
+        "note": "Write failures are injected at the harness server, as a refused RPC and as P4Runtime-style per-update errors, not inside the agent; half of the runs start with nearly drained pools (identifiers taken out by the harness, accounted for in the conservation rule); an exhaustion family runs every pool dry; pool contents are read in-package under the associations' handler locks.",
     },
     "C04": {
         "technique": "runtime monitoring: reference-model monitor comparing the harness P4Runtime server's tables and meter cells with the image of the control plane's rules after every accepted request; in-process crash-point simulation",
@@ -163,7 +163,7 @@ MANIFEST_TEXT = {
     "C07": {
         "technique": "runtime monitoring: adversarial random source installed on the live association, set-model and porcupine linearizability checking of the TEID allocator, identifier comparison response <-> datapath entries, race detector",
         "text": "Uniqueness is a property of whole histories: TEID histories with the cursor at the 2^32 wrap, holes and 3-8 concurrent goroutines are checked against a set model (porcupine for the concurrent ones); F-SEID collisions are forced with scripted random sources on the real agent; CHOOSE TEIDs from concurrent associations and the F-SEID are compared with the fields programmed at the harness BESS server.",
-        "note": "Not reached: exhaustion of the 2^32 TEID space. The scripted source is installed under the association's own handler lock.",
+        "note": "End-to-end phase 2: rejected and accepted modifications on CHOOSE PDRs, then every TEID of a live PDR must be allocated in the generator and nothing in use is chosen again after the cursor went around. Not reached: exhaustion of the 2^32 TEID space. The scripted source is installed under the association's own handler lock.",
     },
     "C12": {
         "technique": "runtime monitoring with fault enumeration: scripted lossy PFCP peer (answer the k-th transmission / none; late, duplicate, wrong-sequence, wrong-type responses), transmission counting and one-sided timing bounds, datapath server stop/start, repeated association setups; race detector owned for this workload",
@@ -173,7 +173,7 @@ MANIFEST_TEXT = {
     "C13": {
         "technique": "runtime monitoring: interval arithmetic on stamps around the rate limiter; end-to-end injection of datapath reports (unixpacket socket / P4Runtime digests) with a sentinel for completeness, Session Report Requests decoded at the peer socket",
         "text": "The notifier is driven with gaps around its interval and judged by t_return(j) - t_call(i) < interval; on the full path, bursts of reports for sessions with/without NOTIFY and unknown sessions are injected at the harness-owned datapath endpoints and the resulting requests are checked (count, SEID, fresh sequence, DLDR, downlink PDR).",
-        "note": "One association (multi-association routing is documented as not implemented); the 20 s interval of the full path is only checked as 'at most one within seconds'.",
+        "note": "Reports are answered with random causes; the notification channel is then fed directly (behind the rate limiter) to see that every live session is still reported; one burst of 1150-1650 first reports per run. One association (multi-association routing is documented as not implemented); the 20 s interval of the full path is only checked as 'at most one within seconds'.",
     },
     "C14": {
         "technique": "runtime monitoring: packets captured at the harness end-marker socket / PacketOut, decoded with gopacket, ordered against datapath commands by a shared logical clock, sentinel update for completeness; injected write failures on UP4",
@@ -183,7 +183,7 @@ MANIFEST_TEXT = {
     "C16": {
         "technique": "runtime monitoring: every P4Runtime write validated online against the shipped P4Info by the harness server; the real generator binary executed repeatedly and its output byte-compared",
         "text": "The validator checks exactly the clauses of the property on every update of boundary-value workloads (and, as notes, in all other UP4 workloads); the compiled-in constants are cross-checked against the P4Info and `p4info_code_gen` is run 5/50 times on the shipped P4Info: gofmt'd output == committed constants, all runs identical.",
-        "note": "Determinism of the generator is only sampled (map iteration order differs per run); nothing stricter than the property is taken from the P4Runtime specification.",
+        "note": "Every other agent generation of the workload dies with sessions installed and its successor starts against the populated switch (clean-up writes validated). Determinism of the generator is only sampled (map iteration order differs per run); nothing stricter than the property is taken from the P4Runtime specification.",
     },
     "C01": {
         "technique": "runtime monitoring: structured fuzzing of the live agent over UDP with liveness / heartbeat-barrier / reply-count monitors, race detector on",
@@ -203,7 +203,7 @@ MANIFEST_TEXT = {
     "C06": {
         "technique": "runtime monitoring: lock-step reference model (bounded-exhaustive + random), porcupine linearizability checking of concurrent histories, conservation invariant under the pool's lock, race detector",
         "text": "All alloc/release sequences up to a bound on /30 and /29 pools, random longer ones, and thousands of concurrent histories recorded at the API boundary and checked against a set-semantics reference pool with porcupine; end-to-end addresses from Created PDR. Race reports in pool code fail the check.",
-        "note": "porcupine v1.3.0 trusted; checker timeout is inconclusive; a concurrent history counts as non-trivial only if its operations overlapped in the recorded stamps.",
+        "note": "The end-to-end part refreshes live sessions (address by value) and removes their downlink PDR at random. porcupine v1.3.0 trusted; checker timeout is inconclusive; a concurrent history counts as non-trivial only if its operations overlapped in the recorded stamps.",
     },
     "C10": {
         "technique": "runtime monitoring: stress of teardown interleavings (timing-randomised triggers, delayed datapath, peer crash with requests in flight, idle REST connection at Stop) with delete-exactly-once counting at the datapath server, goroutine-dump wedge detection, and the race detector (owned: any repository race in this workload fails the check)",
@@ -228,6 +228,6 @@ MANIFEST_TEXT = {
     "C20": {
         "technique": "runtime monitoring: reference-model monitor of the module graph after every netlink event (Python, real handlers, BESS-like recording client)",
         "text": "Tens of thousands of kernel-consistent event histories delivered through the real netlink handlers of conf/route_control.py; after every event the module graph rebuilt from the BESS calls is compared with a model of kernel routes/neighbours (installed iff kernel has it and MAC known; one gate and one MAC-rewrite module per next hop, present iff used; no shared gates).",
-        "note": "pyroute2/pybess/scapy are stubbed (not installed here); no sanitizer applies to CPython; retry sleeps are patched out.",
+        "note": "Histories are kernel-consistent (NEWROUTE for absent routes, or repeated for a route still waiting for its next hop; DELROUTE for present ones). pyroute2/pybess/scapy are stubbed (not installed here); no sanitizer applies to CPython; retry sleeps are patched out.",
     },
 }
